@@ -482,6 +482,151 @@ func genExpand(emit func(string), tier string, rng *Rng) {
 		}
 		emitMsgs(msgs, "history")
 	}
+	// 3b. histories mixing a WIRE value of an accumulated destination with samples of the accumulating component
+	//     (record.distance + compressed_speed_distance, hr.event_timestamp + event_timestamp_12, and every other
+	//     accumulating component of the profile): the destination alone in an earlier message, in the same message
+	//     before / after the container, and again later (re-seeding). The wire value is chosen so that it is a whole
+	//     number of the component's units (that is where the specification determines the total).
+	type accPair struct {
+		o  exOwner
+		ci int
+	}
+	var pairs []accPair
+	for _, o := range owners {
+		comps := o.field.Components
+		if o.sub != nil {
+			comps = o.sub.Components
+		}
+		for ci, c := range comps {
+			if c.Accumulate {
+				pairs = append(pairs, accPair{o, ci})
+			}
+		}
+	}
+	count(fmt.Sprintf("accumulating-components=%d", len(pairs)))
+	nm := 12
+	if thorough {
+		nm = 150
+	}
+	for _, pr := range pairs {
+		o := pr.o
+		comps := o.field.Components
+		if o.sub != nil {
+			comps = o.sub.Components
+		}
+		c := comps[pr.ci]
+		d := factory.StandardFactory().CreateField(o.mesgNum, c.FieldNum)
+		dty, ok := soTyOfBT(d.BaseType)
+		cty, ok2 := soTyOfBT(o.field.BaseType)
+		if !ok || !ok2 || d.Name == factory.NameUnknown {
+			continue
+		}
+		// a destination value that is a whole number of component units: total T (component units) -> v
+		seedVal := func() (uint64, bool) {
+			for try := 0; try < 40; try++ {
+				t := rng.U64() >> uint(36+rng.Intn(26))
+				if rng.Intn(3) == 0 {
+					t *= 4
+				}
+				x := ((float64(t)/c.Scale - c.Offset) + d.Offset) * d.Scale
+				if x >= 0 && x < 4294967295 && x == float64(uint64(x)) {
+					return uint64(x), true
+				}
+			}
+			return 0, false
+		}
+		destField := func() (proto.Field, bool) {
+			v, ok := seedVal()
+			if !ok {
+				return proto.Field{}, false
+			}
+			f := d
+			if d.Array {
+				n := 1 + rng.Intn(3)
+				ps := make([]uint64, n)
+				for q := range ps {
+					ps[q] = uint64(rng.Intn(5000))
+				}
+				ps[n-1] = v
+				f.Value = soMkSliceValue(dty, ps)
+			} else {
+				f.Value = soMkValue(dty, v)
+			}
+			return f, true
+		}
+		// a container whose components are non-zero samples
+		container := func() proto.Field {
+			var packed []byte
+			var cur uint64
+			var nb uint
+			for _, cc := range comps {
+				s := rng.U64() & (1<<uint(cc.Bits) - 1)
+				if s == 0 {
+					s = 1
+				}
+				cur |= s << nb
+				nb += uint(cc.Bits)
+				for nb >= 8 {
+					packed = append(packed, byte(cur))
+					cur >>= 8
+					nb -= 8
+				}
+			}
+			if nb > 0 {
+				packed = append(packed, byte(cur))
+			}
+			f := o.field
+			es := soTyBits[cty] / 8
+			if f.Array {
+				for len(packed)%es != 0 {
+					packed = append(packed, 0)
+				}
+				ps := make([]uint64, len(packed)/es)
+				for q := range ps {
+					for r := 0; r < es; r++ {
+						ps[q] |= uint64(packed[q*es+r]) << (8 * uint(r))
+					}
+				}
+				f.Value = soMkSliceValue(cty, ps)
+			} else {
+				var p uint64
+				for r := 0; r < len(packed) && r < 8; r++ {
+					p |= uint64(packed[r]) << (8 * uint(r))
+				}
+				f.Value = soMkValue(cty, p)
+			}
+			return f
+		}
+		for i := 0; i < nm; i++ {
+			var msgs []proto.Message
+			ln := 2 + rng.Intn(5)
+			for j := 0; j < ln; j++ {
+				var fields []proto.Field
+				switch k := rng.Intn(6); {
+				case j == 0 || k == 0: // the destination alone
+					if df, ok := destField(); ok {
+						fields = []proto.Field{df}
+					}
+				case k == 1: // destination before the container
+					if df, ok := destField(); ok {
+						fields = []proto.Field{df}
+					}
+					fields = append(fields, withRef(o, []proto.Field{container()})...)
+				case k == 2: // destination after the container
+					fields = withRef(o, []proto.Field{container()})
+					if df, ok := destField(); ok {
+						fields = append(fields, df)
+					}
+				default:
+					fields = withRef(o, []proto.Field{container()})
+				}
+				if len(fields) > 0 {
+					msgs = append(msgs, proto.Message{Num: o.mesgNum, Fields: fields})
+				}
+			}
+			emitMsgs(msgs, "history-wire-destination")
+		}
+	}
 	// 4. messages that own no components, unknown messages: expansion changes nothing
 	for i := 0; i < 60; i++ {
 		mn := []typedef.MesgNum{0, 49, 23, 65280, 300, 34}[rng.Intn(6)]
